@@ -28,7 +28,7 @@ type xssVec struct {
 }
 
 var (
-	xssBreakouts  = []string{"", ">", "x>", " >", "'>", "\">", "`>", "x'>", "x\" >", "x` >", "</b>", "-->",
+	xssBreakouts = []string{"", ">", "x>", " >", "'>", "\">", "`>", "x'>", "x\" >", "x` >", "</b>", "-->",
 		// element content behind other markup: empty and bogus comments, end tags with blanks, '/' or attributes, complete elements
 		"<!-->", "<!-- >", "<%>", "<?>", "<!>", "</>", "</title >", "</p/>", "</p\n>", "<p>hello</p >", "\"></a >", "<b>x</b x=y>", "<p>x</p>", "<br/>", "<b x='1'>", "<![CDATA[x]]>", "<!--x-->", "text "}
 	xssAttrBreaks = []string{"<a ", "<img src=x ", " ", "x ", "' ", "\" ", "` ", "x' ", "x\"/", "x`\t", "<b\n", "<b/", "<a\f", "<a\r", "<a x=1\t", "<a x='1'",
